@@ -57,6 +57,7 @@ type c11TxObs struct {
 	// single-row query whose first-row fetch failed at the driver: what the body was told
 	iterAsNotFound bool
 	iterSwallowed  bool
+	nilStmt        bool // a Prepare on the session returned (nil, nil)
 	// context handed to TransactCtx: done before the call / done when the body finished
 	ctxDoneBefore bool
 	ctxDone       bool
@@ -111,6 +112,9 @@ func c11RunStmt(ctx context.Context, s sqlx.Session, kind byte, i int) error {
 		if err != nil {
 			return err
 		}
+		if st == nil {
+			return c11ErrNilStmtTx
+		}
 		defer st.Close()
 		_, err = st.ExecCtx(ctx, i)
 		return err
@@ -118,6 +122,9 @@ func c11RunStmt(ctx context.Context, s sqlx.Session, kind byte, i int) error {
 		st, err := s.PrepareCtx(ctx, "select c from t where a = ? and b = ?")
 		if err != nil {
 			return err
+		}
+		if st == nil {
+			return c11ErrNilStmtTx
 		}
 		defer st.Close()
 		var v int64
@@ -127,6 +134,9 @@ func c11RunStmt(ctx context.Context, s sqlx.Session, kind byte, i int) error {
 		if err != nil {
 			return err
 		}
+		if st == nil {
+			return c11ErrNilStmtTx
+		}
 		defer st.Close()
 		_, err = st.Exec(i)
 		return err
@@ -135,11 +145,17 @@ func c11RunStmt(ctx context.Context, s sqlx.Session, kind byte, i int) error {
 		if err != nil {
 			return err
 		}
+		if st == nil {
+			return c11ErrNilStmtTx
+		}
 		defer st.Close()
 		var vs []int64
 		return st.QueryRows(&vs, i)
 	}
 }
+
+// c11ErrNilStmtTx: the transaction session's Prepare returned a nil statement and a nil error.
+var c11ErrNilStmtTx = errors.New("c11: session.Prepare returned (nil, nil)")
 
 // c11RunTx runs one transaction described by c on conn/rec and returns the observation.
 func c11RunTx(c c11TxCase, conn sqlx.Conn, rec *c11Rec) c11TxObs {
@@ -178,6 +194,9 @@ func c11RunTxWith(c c11TxCase, rec *c11Rec, call func(context.Context, func(cont
 		}()
 		for i := 0; i < c.K; i++ {
 			e := c11RunStmt(ctx, s, c.Kinds[i], i)
+			if errors.Is(e, c11ErrNilStmtTx) {
+				o.nilStmt = true
+			}
 			if c.IterFault && i == c.StmtFault {
 				o.iterSwallowed = e == nil
 				o.iterAsNotFound = errors.Is(e, sqlx.ErrNotFound)
@@ -286,6 +305,9 @@ func c11JudgeTx(m *vk.M, desc string, o c11TxObs) (class string, violated bool) 
 	}
 	if o.bodyCalls != 1 {
 		return v("C11:tx:body-calls", "transaction began but the supplied function ran %d times", o.bodyCalls)
+	}
+	if o.nilStmt {
+		return v("C11:tx:stmt:prepare-returned-nil-statement", "Prepare on the transaction session returned a nil statement together with a nil error: the body cannot run its statement and cannot tell why")
 	}
 	if o.iterAsNotFound {
 		return v("C11:tx:stmt:iteration-error-reported-as-ErrNotFound", "the driver failed while fetching the first row of a single-row query in the transaction session; the body was told ErrNotFound (empty result)")
